@@ -132,6 +132,57 @@ def run(chk):
             cq.fl(1e-9 * max(1.0, float(np.abs(X).max())) ** 2), ";\n  ".join(obs_t)))
         if i < 2:
             chk.sample({"C": C, "D": D, "ops": names})
+    # ---- a weight set to exactly 0 (a pruned component) on a machine that held a positive weight there: the component no longer contributes.
+    #      Oracle computed by hand (a fresh machine has held the constructor's 1/K in that slot, so it has the same history).
+    for j in range(8 if chk.tier == "quick" else 300):
+        C, D = r.choice([2, 3, 4]), r.choice([1, 2])
+        w, mu, var, s = gen.gen_gmm(r, C, D, "unit")
+        m = make_gmm(w, mu, var)
+        probe = gen.sample_from(r, w, mu, var, 6)
+        if j % 2:
+            m.log_likelihood(probe)      # used before the assignment
+        z = r.randrange(C)
+        wz = np.array(w, dtype=float)
+        wz[z] = 0.0
+        wz = wz / wz.sum()
+        import warnings
+        with warnings.catch_warnings():
+            warnings.simplefilter("ignore")
+            m.weights = wz
+            ll = np.asarray(m.log_likelihood(probe), dtype=float)
+            st = m.acc_stats(probe)
+        comp = -0.5 * (((probe[None, :, :] - mu[:, None, :]) ** 2 / var[:, None, :]).sum(-1) + np.log(2 * np.pi * var).sum(-1)[:, None])
+        alive = [c for c in range(C) if c != z]
+        want = np.log(sum(wz[c] * np.exp(comp[c]) for c in alive))
+        chk.count(1, key=("weight set to exactly 0", C))
+        if not (np.allclose(ll, want, rtol=1e-10, atol=1e-10) and float(np.asarray(st.n)[z]) == 0.0):
+            chk.fail("after assigning weights %s (component %d pruned) the machine scores %s instead of %s and gives that component the occupancy %.6g (a stale log-weight survives)"
+                     % (wz.tolist(), z, ll.tolist(), want.tolist(), float(np.asarray(st.n)[z])),
+                     {"w_before": hexlist(w), "w_after": hexlist(wz), "mu": hexlist(mu), "var": hexlist(var), "probe": hexlist(probe), "component": z})
+    # ---- variances handed from one machine to another (m2.variances = m1.variances) and from a caller's array: the receiving machine clamps its
+    #      own copy; the giver, its cached normaliser and the caller's array are untouched
+    for j in range(8 if chk.tier == "quick" else 300):
+        C, D = r.choice([1, 2, 3]), r.choice([1, 2, 3])
+        w, mu, var, s = gen.gen_gmm(r, C, D, "unit")
+        m1 = make_gmm(w, mu, var, thr=1e-9)
+        m2 = make_gmm(w, mu, var, thr=1e-9)
+        probe = gen.sample_from(r, w, mu, var, 5)
+        ll_before = np.array(m1.log_likelihood(probe))
+        m2.variance_thresholds = float(np.median(var)) * 1.5            # floors above part of m1's variances
+        given = m1.variances if j % 2 == 0 else np.array(var)
+        snap = np.array(given, copy=True)
+        m2.variances = given
+        chk.count(1, key=("variances handed over", "from a machine" if j % 2 == 0 else "caller array"))
+        cx = {"w": hexlist(w), "mu": hexlist(mu), "var": hexlist(var), "probe": hexlist(probe), "floor_of_receiver": float(np.median(var)) * 1.5}
+        if not np.array_equal(np.asarray(given), snap):
+            chk.fail("assigning an array to GMMMachine.variances modifies the array that was handed over (%s)" % ("the variances of another machine" if j % 2 == 0 else "a caller's array"), cx)
+        fresh1 = make_gmm(np.array(m1.weights), np.array(m1.means), np.array(m1.variances), thr=0.0)
+        if not (np.allclose(np.asarray(m1.log_likelihood(probe)), np.asarray(fresh1.log_likelihood(probe)), rtol=1e-12, atol=1e-12)
+                and np.array_equal(np.asarray(m1.log_likelihood(probe)), ll_before)):
+            chk.fail("after m2.variances = m1.variances (m2 has higher floors) machine m1 no longer scores like a fresh machine with its visible parameters / like before", cx)
+        m2.variances = np.asarray(m2.variances) * 2.0
+        if not np.array_equal(np.asarray(m1.log_likelihood(probe)), ll_before):
+            chk.fail("an update of m2's variances changes the scores of m1 (the two machines share storage after m2.variances = m1.variances)", cx)
     # MAP adaptation with weight/variance updating on NumPy input: no stale log-weight or normaliser afterwards
     for j in range(6 if chk.tier == "quick" else 200):
         C, D = r.choice([2, 3]), r.choice([1, 2])
